@@ -60,3 +60,62 @@ def search(repo, *a, **kw):
     if key not in _MEMO:
         _MEMO[key] = _search(repo, *a, **kw)
     return _MEMO[key]
+
+
+# ---- sanitisers (round 11): service_type_name and the abbreviation stem, on the real code -------------------------------------
+SERVICE_NAMES = ['ItemsService', '0x', '1', '007', '5_', '٣x', 'x٣', 'a-b', 'a.b', 'Ab9_', 'gen', 'try', 'macro_rules', 'Self_', 'é_', '_é', 'Φ', '_', '__', '9x', 'Ünï', 'self', 'Self', 'type', 'crate', 'super', 'union', 'a-b.c', 'a b', 'x"y', '日本', '_9', 'r#type', '']
+URIS = ['http://example.com/types', 'urn:x', 'http://example.com/', 'http://e.com/a-"b', 'http://e.com/Φ', 'http://e.com/a b', 'http://e.com/{x}', 'http://e.com/9', '',
+        'http://e.com/x-', 'http://e.com/a\\b', "http://e.com/a'b", 'http://e.com/ÄÖÜ', 'http://e.com/a\nb']
+
+
+def _rs(s):
+    return '"' + ''.join(c if c.isascii() and c.isprintable() and c not in '"\\' else '\\u{%x}' % ord(c) for c in s) + '"'
+
+
+def plain_or_raw_ident(s: str) -> bool:
+    must = set(KW['strict'] + KW['reserved'])
+    def plain(x):
+        return bool(re.fullmatch(r'[A-Za-z_][A-Za-z0-9_]*', x)) and x != '_'
+    if s.startswith('r#'):
+        return plain(s[2:]) and s[2:] not in KW['noraw']
+    return plain(s) and s not in must
+
+
+def _search_sanitisers(repo):
+    res = {'cases': 0, 'mismatches': []}
+    src = '''
+#[cfg(test)]
+mod verif_replay_ks {
+    #[test]
+    fn names() { for n in [%s] { println!("KS|svc|{}|{}", n.escape_default(), super::service_type_name(n)); } }
+}
+''' % ', '.join(_rs(n) for n in SERVICE_NAMES)
+    rc, outp = run_test_module(src, 'verif_replay_ks::names', repo, host_file='zeep-lib/src/model/soap/service.rs')
+    src2 = '''
+#[cfg(test)]
+mod verif_replay_ks {
+    #[test]
+    fn stems() { for u in [%s] { println!("KS|abbr|{}|{}", u.escape_default(), super::make_abbreviated_namespace(u, &[])); } }
+}
+''' % ', '.join(_rs(u) for u in URIS)
+    rc2, outp2 = run_test_module(src2, 'verif_replay_ks::stems', repo, host_file='zeep-lib/src/model/doc.rs')
+    for line in (outp + '\n' + outp2).splitlines():
+        m_ = re.match(r'^(?:test \S+ \.\.\. )?KS\|(svc|abbr)\|(.*)\|(.*)$', line)
+        if not m_:
+            continue
+        res['cases'] += 1
+        kind, inp, got = m_.groups()
+        if kind == 'svc' and not plain_or_raw_ident(got):
+            res['mismatches'].append({'function': 'service_type_name', 'input': inp, 'result': got, 'problem': 'the service struct name is not a legal identifier'})
+        if kind == 'abbr' and not re.fullmatch(r'[A-Za-z0-9_]*', got):
+            res['mismatches'].append({'function': 'make_abbreviated_namespace', 'input': inp, 'result': got, 'problem': 'the abbreviation contains a character that is not an identifier character'})
+    if res['cases'] == 0:
+        res['error'] = (outp + outp2)[-1500:]
+    return res
+
+
+def search_sanitisers(repo):
+    key = ('ks', repo)
+    if key not in _MEMO:
+        _MEMO[key] = _search_sanitisers(repo)
+    return _MEMO[key]
